@@ -45,11 +45,20 @@ class ErrV(ProgErr):
     pass
 
 
+class ErrQ(ProgErr):
+    """failures that *compare equal* (a dataclass exception, an error code) although they are different objects"""
+    def __eq__(self, other):
+        return type(other) is ErrQ
+
+    def __hash__(self):
+        return 17
+
+
 class ErrR(ProgErr):
     pass
 
 
-EXC_CLASSES = {'E': ProgErr, 'L': ErrL, 'K': ErrK, 'I': ErrI, 'V': ErrV, 'R': ErrR}
+EXC_CLASSES = {'E': ProgErr, 'L': ErrL, 'K': ErrK, 'I': ErrI, 'V': ErrV, 'R': ErrR, 'Q': ErrQ}
 class InvariantBroken(AssertionError):
     """a derived privileged exception"""
 
